@@ -483,7 +483,7 @@ fn find_macro_defs<'a>(items: &'a [syn::Item], name: &str, f: &'a SrcFile, out: 
 }
 
 /// returns (param names with '$', byte range of the transcriber body contents)
-fn parse_macro_rules(m: &syn::ItemMacro, _text: &str) -> Result<(Vec<String>, std::ops::Range<usize>), Undecided> {
+pub(crate) fn parse_macro_rules(m: &syn::ItemMacro, _text: &str) -> Result<(Vec<String>, std::ops::Range<usize>), Undecided> {
     use proc_macro2::TokenTree as TT;
     let toks: Vec<TT> = m.mac.tokens.clone().into_iter().collect();
     // expect: (matcher) => {transcriber} [;]
@@ -535,11 +535,69 @@ fn parse_macro_rules(m: &syn::ItemMacro, _text: &str) -> Result<(Vec<String>, st
     Ok((params, r.start + 1..r.end - 1))
 }
 
-fn split_top_commas(s: &str) -> Vec<String> {
+/// byte offsets of s that lie inside a string or character literal (so that brackets and commas there are not syntax)
+pub(crate) fn literal_mask(s: &str) -> Vec<bool> {
+    let b: Vec<char> = s.chars().collect();
+    let mut mask_c = vec![false; b.len()];
+    let mut i = 0;
+    while i < b.len() {
+        if b[i] == '"' {
+            let st = i;
+            i += 1;
+            while i < b.len() && b[i] != '"' {
+                if b[i] == '\\' {
+                    i += 1;
+                }
+                i += 1;
+            }
+            for k in st..=i.min(b.len() - 1) {
+                mask_c[k] = true;
+            }
+            i += 1;
+        } else if b[i] == '\'' {
+            // a character literal: 'x' or an escape; anything else is a lifetime
+            if i + 2 < b.len() && b[i + 1] != '\\' && b[i + 2] == '\'' {
+                mask_c[i] = true;
+                mask_c[i + 1] = true;
+                mask_c[i + 2] = true;
+                i += 3;
+            } else if i + 1 < b.len() && b[i + 1] == '\\' {
+                let st = i;
+                i += 2;
+                while i < b.len() && b[i] != '\'' {
+                    i += 1;
+                }
+                for k in st..=i.min(b.len() - 1) {
+                    mask_c[k] = true;
+                }
+                i += 1;
+            } else {
+                i += 1;
+            }
+        } else {
+            i += 1;
+        }
+    }
+    // per byte
+    let mut mask = Vec::with_capacity(s.len());
+    for (k, c) in b.iter().enumerate() {
+        for _ in 0..c.len_utf8() {
+            mask.push(mask_c[k]);
+        }
+    }
+    mask
+}
+
+pub(crate) fn split_top_commas(s: &str) -> Vec<String> {
+    let mask = literal_mask(s);
     let mut out = vec![];
     let mut depth = 0i32;
     let mut cur = String::new();
-    for c in s.chars() {
+    for (i, c) in s.char_indices() {
+        if mask[i] {
+            cur.push(c);
+            continue;
+        }
         match c {
             '(' | '[' | '{' | '<' => {
                 depth += 1;
@@ -562,7 +620,7 @@ fn split_top_commas(s: &str) -> Vec<String> {
     out
 }
 
-fn replace_metavar(body: &str, var: &str, val: &str) -> String {
+pub(crate) fn replace_metavar(body: &str, var: &str, val: &str) -> String {
     // replace `$name` not followed by an identifier character
     let mut out = String::new();
     let mut i = 0;
